@@ -1,6 +1,7 @@
 import ScVerif.C09.Codec
 import ScVerif.C09.SendTimeout
 import ScVerif.C09.MapQueue
+import ScVerif.C09.Subs
 /-! Driver handler for C09.
 
 * `merge <a> <b>`                 → `mergeChanges a b` (`drop` when `send == false`)
@@ -10,6 +11,17 @@ import ScVerif.C09.MapQueue
 * `drun <move>*`                  the same for `DropExcess` over opaque tokens: `r:<tok>` / `e`
 * `send <deadline> <listener>*`   `Bus.Send` with a deadline over listeners `<readyAt>/<cancelledAt>` (`-` = never)
                                   → `ok@<t>` or `deadline@<t>`
+* `vrun <equiv> <mask> <seed> <move>*`  the lossy `Value.Pull` pipeline (`vstepF`, Subs.lean) from the state right after
+                                  subscribing (seed in hand; `-` = no seed), forwarder scheduled greedily (one `take`
+                                  attempt after every move): moves `w:<tok>` (a write reaches the DropExcess slot) /
+                                  `d` (the consumer receives); equivalences `never|eq|class|near`, mask `0|1`
+                                  (`1`: tokens `sn` are filtered to `s0`) → per move `<takes>` / `<value|none>,<takes>`
+                                  (cumulative number of takes = calls of the equivalence), then `|` and the values
+                                  a consumer draining to quiescence receives
+* `crun <kind,…> <seeds> <move>*` several subscribers on one bus (`sysStep`), each subscribed with the seed changes
+                                  `<seeds>` (`;`-separated, `-` = none) and scheduled greedily: kinds `pull` /
+                                  `id:<i>` (PullID); moves `s:<change>` (Bus.Send) / `d<k>` (consumer k receives)
+                                  → per move `[<out>@]<seen0>/<seen1>/…`, then per subscriber `|` and its drain
 * `set <deadline> <listener>*`    `Value.set` after its commit: `Bus.Send` as above, then the error mapping
                                   (`setReturnsError`) → `error@<t>` or `ok@<t>`
 -/
@@ -48,8 +60,129 @@ def showSendResult : SendResult → String
   | .ok t => "ok@" ++ toString t
   | .deadlineExceeded t => "deadline@" ++ toString t
 
+/-! #### Value pipeline (tokens are two-character strings `sn`) -/
+
+def tokHead (s : String) : Nat := (s.toList.headD '0').toNat
+
+def namedEquiv? : String → Option (Option String → String → Bool)
+  | "never" => some (fun _ _ => false)
+  | "eq" => some (fun l v => l == some v)
+  | "class" => some (fun l v => match l with | some a => tokHead a == tokHead v | none => false)
+  | "near" => some (fun l v => match l with
+      | some a => (tokHead a ≤ tokHead v + 1) && (tokHead v ≤ tokHead a + 1) | none => false)
+  | _ => none
+
+def namedFilter? : String → Option (String → String)
+  | "0" => some id
+  | "1" => some (fun s => String.ofList [s.toList.headD '0', '0'])
+  | _ => none
+
+inductive VM where | w (t : String) | d
+
+def parseVM? (s : String) : Option VM :=
+  if s = "d" then some .d
+  else match s.splitOn ":" with
+    | ["w", t] => if t.length = 2 then some (.w t) else none
+    | _ => none
+
+/-- one `take` attempt; the counter counts the takes that happened -/
+def vtake (E : Option String → String → Bool) (F : String → String) (c : VCfg String × Nat) : VCfg String × Nat :=
+  let took := c.1.inHand.isNone && c.1.slot.isSome
+  (vstepF E F c.1 .take, if took then c.2 + 1 else c.2)
+
+def vrunDrv (E : Option String → String → Bool) (F : String → String) :
+    VCfg String × Nat → List VM → List String → List String × (VCfg String × Nat)
+  | c, [], acc => (acc.reverse, c)
+  | c, .w t :: ms, acc =>
+    let c' := vtake E F (vstepF E F c.1 (.recv t), c.2)
+    vrunDrv E F c' ms (toString c'.2 :: acc)
+  | c, .d :: ms, acc =>
+    let o := match c.1.inHand with | some v => v | none => "none"
+    let c' := vtake E F (vstepF E F c.1 .deliver, c.2)
+    vrunDrv E F c' ms ((o ++ "," ++ toString c'.2) :: acc)
+
+def vdrain (E : Option String → String → Bool) (F : String → String) : Nat → VCfg String → List String
+  | 0, _ => []
+  | n + 1, c =>
+    match c.inHand with
+    | some v => v :: vdrain E F n (vstepF E F (vstepF E F c .deliver) .take)
+    | none => if c.slot.isSome then vdrain E F n (vstepF E F c .take) else []
+
+/-! #### several subscribers on one bus -/
+
+abbrev SSub := Sub String String
+
+def parseKindSub? (sd : List SChange) (s : String) : Option SSub :=
+  if s = "pull" then some (Sub.init none sd)
+  else match s.splitOn ":" with
+    | ["id", i] => if i = "" then none else some (Sub.init (some i) sd)
+    | _ => none
+
+inductive CM where | s (e : SChange) | d (k : Nat)
+
+def parseCM? (s : String) : Option CM :=
+  match s.splitOn ":" with
+  | ["s", c] => (parseChange? c).map .s
+  | [t] => match t.toList with
+    | 'd' :: ds => (parseNat? (String.ofList ds)).map .d
+    | _ => none
+  | _ => none
+
+/-- greedy local schedule of one subscriber: take / hand until nothing moves (enough fuel for every
+pending change to be skipped) -/
+def greedy (s : SSub) : SSub :=
+  let n := s.q.s.seeds.length + s.q.s.p.st.pending.length + 2
+  (List.range n).foldl (fun s _ => subStep (subStep (subStep s .take) .hand) .take) s
+
+/-- per subscriber: how many values its forwarder has looked at so far (one per present old/new value of
+every change it took) — the number of calls an accept-all `WithInclude` function has seen; used by the
+harness only to wait until the real forwarder has caught up with the greedy schedule -/
+def takesOf (subs : List SSub) : String :=
+  "/".intercalate (subs.map (fun s => toString
+    (s.q.s.p.taken.foldl (fun n e => n + (if e.old.isSome then 1 else 0) + (if e.new.isSome then 1 else 0)) 0)))
+
+/-- what consumer `k` receives now (`none`: nothing offered; `closed`: PullID ended) -/
+def offerOf (s : SSub) : String :=
+  match s.watch with
+  | none => match s.q.s.offer with | some d => showChange d | none => "none"
+  | some _ => match s.q.hand2 with
+    | some v => v
+    | none => if s.q.ended then "closed" else "none"
+
+def crunDrv : List SSub → List CM → List String → List String × List SSub
+  | subs, [], acc => (acc.reverse, subs)
+  | subs, .s e :: ms, acc =>
+    let subs' := (sysStep subs (.send e)).map greedy
+    crunDrv subs' ms (takesOf subs' :: acc)
+  | subs, .d k :: ms, acc =>
+    let o := match subs[k]? with | some s => offerOf s | none => "none"
+    let subs' := (sysStep subs (.loc k .deliver)).map greedy
+    crunDrv subs' ms ((o ++ "@" ++ takesOf subs') :: acc)
+
+def cdrain : Nat → SSub → List String
+  | 0, _ => []
+  | n + 1, s =>
+    match offerOf s with
+    | "none" => []
+    | "closed" => ["closed"]
+    | o => o :: cdrain n (greedy (subStep s .deliver))
+
 def handle? (toks : List String) : Option String :=
   match toks with
+  | "vrun" :: eq :: mask :: seed :: ms => do
+    let E ← namedEquiv? eq
+    let F ← namedFilter? mask
+    let cur ← (if seed = "-" then some none else if seed.length = 2 then some (some seed) else none)
+    let ms ← ms.mapM parseVM?
+    let r := vrunDrv E F (VCfg.subscribed F cur, 0) ms []
+    pure (showOuts r.1 ++ "|" ++ showOuts (vdrain E F 8 r.2.1))
+  | "crun" :: kinds :: seeds :: ms => do
+    let sd ← (if seeds = "-" then some [] else (seeds.splitOn ";").mapM parseChange?)
+    let subs ← (kinds.splitOn ",").mapM (parseKindSub? sd)
+    let ms ← ms.mapM parseCM?
+    let r := crunDrv subs ms []
+    pure (" ".intercalate r.1 ++ "|" ++
+      "|".intercalate (r.2.map (fun s => showOuts (cdrain (s.q.s.seeds.length + s.q.s.p.st.pending.length + 4) s))))
   | "send" :: dl :: ls => do
     let dl ← parseNat? dl
     let ls ← ls.mapM parseListener?
